@@ -8,6 +8,7 @@ import (
 
 	"github.com/absolute8511/redcon"
 	"github.com/youzan/ZanRedisDB/common"
+	"github.com/youzan/ZanRedisDB/rockredis"
 )
 
 func parseScanArgs(args [][]byte) (cursor []byte, match string, count int, err error) {
@@ -41,6 +42,11 @@ func parseScanArgs(args [][]byte) (cursor []byte, match string, count int, err e
 				// a negative count made the scan handlers index the empty result with -1
 				err = common.ErrInvalidArgs
 				return
+			}
+			if count > rockredis.MAX_BATCH_NUM {
+				// the store never returns more than MAX_BATCH_NUM elements in one page: a larger count made
+				// every full page look like the last one (length < count) and the scan ended after it
+				count = rockredis.MAX_BATCH_NUM
 			}
 
 			i++
